@@ -148,6 +148,78 @@ example : ∃ w, (Container.bmp 4097 w).Inv := by
   obtain ⟨w, _, hi, _⟩ := c03_conversion_card (Array.range 4096) 5000 hv (by simp) (by decide) (by simp)
   exact ⟨w, hi⟩
 
+/-- Representation changes happen in one direction only and exactly at the threshold:
+(1) `Add` on an array container returns a bitmap container only when the array already holds
+`threshold` (4096) values and `x` is new; (2) below the threshold, or for a duplicate, it stays
+an array; (3) a bitmap container stays a bitmap container under `Add` and `Remove` whatever its
+fill level — there is no conversion back (an emptied bucket is removed from the skip list by
+`RoaringBitmap.Remove`, `c03_remove`; a bucket created later starts as an array again:
+`RB.add` on an absent key stores `arrAdd #[] low`). -/
+theorem c03_representation :
+    (∀ (v v' : Array Nat) (x : Nat) (n : Int) (w : Array Word) (ok : Bool),
+      arrAdd v x = some (v', .bmp n w, ok) → threshold ≤ v.size ∧ ok = true ∧ n = 4097 ∧ v' = v) ∧
+    (∀ (v v' a : Array Nat) (x : Nat) (ok : Bool),
+      arrAdd v x = some (v', .arr a, ok) → a = v' ∧ (ok = false ∨ v.size < threshold)) ∧
+    (∀ (n : Int) (w : Array Word) (x : Nat) (c c' : Container) (ok : Bool),
+      (Container.bmp n w).add x = some (c, c', ok) → ∃ n' w', c = .bmp n' w' ∧ c' = .bmp n' w') ∧
+    (∀ (n : Int) (w : Array Word) (x : Nat) (c : Container) (ok : Bool),
+      (Container.bmp n w).remove x = some (c, ok) → ∃ n' w', c = .bmp n' w') := by
+  refine ⟨?_, ?_, ?_, ?_⟩
+  · intro v v' x n w ok h
+    unfold arrAdd at h
+    split at h
+    · cases h
+    · split at h
+      · cases h
+      · split at h
+        · split at h <;> cases h
+        · simp only [] at h
+          split at h
+          · cases h
+          · split at h
+            · cases h
+            · simp only [Option.some.injEq, Prod.mk.injEq, Container.bmp.injEq] at h
+              obtain ⟨h1, ⟨h2, _⟩, h3⟩ := h
+              refine ⟨by omega, h3.symm, h2.symm, h1.symm⟩
+  · intro v v' a x ok h
+    unfold arrAdd at h
+    split at h
+    · cases h
+    · split at h
+      · simp only [Option.some.injEq, Prod.mk.injEq, Container.arr.injEq] at h
+        obtain ⟨h1, h2, h3⟩ := h
+        exact ⟨by rw [← h1, ← h2], Or.inl h3.symm⟩
+      · split at h
+        · rename_i hlt
+          split at h
+          · cases h
+          · simp only [Option.some.injEq, Prod.mk.injEq, Container.arr.injEq] at h
+            obtain ⟨h1, h2, _⟩ := h
+            exact ⟨by rw [← h1, ← h2], Or.inr hlt⟩
+        · simp only [] at h
+          split at h
+          · cases h
+          · split at h <;> cases h
+  · intro n w x c c' ok h
+    simp only [Container.add] at h
+    split at h
+    · cases h
+    · simp only [Option.some.injEq, Prod.mk.injEq] at h
+      obtain ⟨h1, h2, _⟩ := h
+      exact ⟨_, _, h1.symm, h2.symm⟩
+  · intro n w x c ok h
+    simp only [Container.remove, Option.some.injEq, Prod.mk.injEq] at h
+    exact ⟨_, _, h.1.symm⟩
+
+/-- Non-vacuity of clause (1): the conversion of `c03_conversion_card` is such an `arrAdd`. -/
+example : ∃ w, arrAdd (Array.range 4096) 5000 = some (Array.range 4096, .bmp 4097 w, true) := by
+  have hv : (Container.arr (Array.range 4096)).Inv := by
+    refine ⟨?_, ?_, by simp, by simp⟩
+    · unfold Sorted; rw [Array.toList_range]; exact List.pairwise_lt_range
+    · intro y hy; rw [Array.toList_range, List.mem_range] at hy; omega
+  obtain ⟨w, h, _, _⟩ := c03_conversion_card (Array.range 4096) 5000 hv (by simp) (by decide) (by simp)
+  exact ⟨w, h⟩
+
 /-- The skip list under the bitmap is used only through `GetNode/Get/Set/Remove/Head/Next/
 SetValue`; the association-list functions the model uses for them are exactly the sorted-map
 specification that property C02 proves the real skip list refines (`c02_refines`), for the
